@@ -797,6 +797,9 @@ def _judge_refuse(b, out):
     if b['kind'] == 'panic':
         return 'restore:panic', 'restore panics: %s' % b.get('msg'), bool(out.get('panic'))
     refused = str(out.get('result', '')).startswith('Err') and 'DestinationNotEmpty' in str(out.get('result'))
+    if any('outside the destination' in p for p in b['problems']):
+        return ('restore:escape:overwrite:%s' % b.get('dest'), 'dest %s overwrite=%s: %s' % (b.get('dest'), b.get('overwrite'), '; '.join(b['problems'][:3])),
+                bool(out.get('outside_changed')))
     return ('restore:refusal:%s' % b.get('dest'), 'dest %s overwrite=%s: %s' % (b.get('dest'), b.get('overwrite'), '; '.join(b['problems'][:3])),
             (not refused) or bool(out.get('whole_changed')))
 
